@@ -209,7 +209,67 @@ def analyse(prog):
     for fn in prog.functions:
         if FUNCTOR_RE.match(fn.g):
             analyse_functor(prog, F, fn)
+    for fn in fns:
+        analyse_iterator_discipline(prog, F, W, fn)
     return F, W
+
+
+def analyse_iterator_discipline(prog, F, W, fn):
+    """R05f: the caller's output iterator is a value: once it has been handed (by value) to something that writes through it,
+    the local copy is stale; using it again without re-assigning it from the callee's result overwrites what was emitted when
+    the iterator is positional (vector::iterator, pointer) - inserters hide the defect"""
+    cfg = fn.cfg
+    if cfg is None or fn.body is None:
+        return
+    outs = [v for v in set(d.decl_id for d in fn.walk() if d.k == 'DeclRefExpr' and d.decl_id is not None) if W.W.get(v) == ('out', 'CALLER')]
+    for ov in outs:
+        uses = [d for d in fn.walk() if d.k == 'DeclRefExpr' and d.decl_id == ov]
+        consuming = []
+        for u in uses:
+            call = None
+            for a in u.ancestors():
+                if a.k in ex.CTOR_KINDS and a.callee and (a.callee.get('copy_ctor') or a.callee.get('move_ctor')):
+                    continue      # the by-value copy made for the call
+                if a.k in ex.CALL_KINDS + ex.CTOR_KINDS:
+                    call = a
+                    break
+                if a.k in ('CompoundStmt', 'DeclStmt', 'ReturnStmt'):
+                    break
+            if call is None or call.callee is None:
+                continue
+            c = call.callee
+            if call.k == 'CXXOperatorCallExpr' and call.op in ('++', '--', '*', '='):
+                continue      # *out++ = x advances the local copy itself
+            args = call.args() if call.k != 'CXXOperatorCallExpr' else call.c[2:]
+            ix = None
+            for i_, a in enumerate(args):
+                if a.strip_all() is u or ex.var_of(a) == ov or a.is_ancestor_of(u):
+                    ix = i_
+            if ix is None:
+                continue
+            ptypes = c.get('params', [])
+            byval = ix < len(ptypes) and not (prog.type(ptypes[ix]) or {}).get('ref')
+            writes_through = c['g'] in ('std::copy', 'std::transform', 'std::move', 'std::copy_if', 'std::fill_n', 'std::generate_n') or \
+                c.get('in_repo')
+            if byval and writes_through:
+                # result assigned back to the iterator?
+                up = call.up()
+                reassigned = up is not None and up.k in ('BinaryOperator', 'CXXOperatorCallExpr') and up.op == '=' and \
+                    ex.var_of(up.c[0] if up.k == 'BinaryOperator' else up.c[1]) == ov
+                consuming.append((call, u, reassigned))
+        what = 'the caller\'s output iterator is not used again after it was handed by value to something that writes through it'
+        for (call, u, reassigned) in consuming:
+            if reassigned:
+                F.add('R05f', call, fn, what, 'ok', 'result assigned back to the iterator')
+                continue
+            later = [d for d in uses if d is not u and cfg.reaches(call, d) and not call.is_ancestor_of(d)]
+            if later:
+                F.add('R05f', call, fn, what, 'violation',
+                      '`%s` receives a copy of the iterator and its advanced result is dropped; the stale iterator is used again at line %d: with a '
+                      'positional iterator the cycles emitted first are overwritten and trailing slots stay unwritten' % (call.text(50), later[0].line),
+                      key='R05f|%s|stale-iterator' % fn.g)
+            else:
+                F.add('R05f', call, fn, what, 'ok', 'last use of the iterator')
 
 
 # ---------------------------------------------------------------------------------------------- run()
@@ -300,6 +360,14 @@ def analyse_run(prog, F, W, run):
     if wfield is None:
         F.add('R05b', run.body, run, whatb, 'undecided', 'run() does not return a plain accumulator')
     else:
+        writes = [d for (d, rhs) in ex.assignments_to(run, wfield) if d.k in ('CompoundAssignOperator', 'CXXOperatorCallExpr', 'BinaryOperator')]
+        for d in writes:
+            if d.k == 'BinaryOperator' and d.op == '=':
+                earlier = [w for w in writes if w is not d and cfg.reaches(w, d)]
+                if earlier:
+                    F.add('R05b', d, run, 'the weights of both phases are added up', 'violation',
+                          '`%s` overwrites the weight accumulated at line %d: the returned value omits the cycles emitted before' % (d.text(50), earlier[0].line),
+                          key='R05b|%s|overwrite' % run.g)
         for (d, rhs) in ex.assignments_to(run, wfield):
             if d.k not in ('CompoundAssignOperator', 'CXXOperatorCallExpr', 'BinaryOperator'):
                 continue
